@@ -59,8 +59,11 @@ Pattern:
 		}
 		if star {
 			// Look for match skipping i+1 bytes.
-			for i := 0; i < len(name); i++ {
-				t, ok, err := matchChunk(chunk, name[i+1:])
+			for i := 0; i < len(name); {
+				// skip a whole character, as '?' and character classes do
+				_, n := utf8.DecodeRuneInString(name[i:])
+				i += n
+				t, ok, err := matchChunk(chunk, name[i:])
 				if ok {
 					// if we're the last chunk, make sure we exhausted the name
 					if len(pattern) == 0 && len(t) > 0 {
